@@ -20,9 +20,10 @@ func condValue(kind int, param int, b, n string) CParam {
 			return GenOf(b, n, 0)
 		}
 		return MetaOf(b, n, 0)
-	case 2: // different from current
+	case 2: // different from current (and from every later generation: the model hands out consecutive
+		// numbers where the implementation hands out nanosecond timestamps, so current+1 could collide)
 		if param < 2 {
-			return GenOf(b, n, 1)
+			return GenOf(b, n, -1)
 		}
 		return MetaOf(b, n, 1)
 	case 3:
@@ -136,7 +137,7 @@ func genC04(out, tier string, rng *rand.Rand) {
 		}
 	}
 	RunTasksNT(sink, htasks, histNontrivial)
-	sink.Close("complete truth table: 4 condition parameters x {unset, =current, current+1, \"0\", \"-7\", \"12x\"} x object state "+
+	sink.Close("complete truth table: 4 condition parameters x {unset, =current, current-1 (generation) or current+1 (metageneration), \"0\", \"-7\", \"12x\"} x object state "+
 		"{absent, fresh, patched, overwritten} x operation {media, multipart, resumable, patch, delete, compose destination, compose source} x store {mem, file}; "+
 		"each case = setup + operation + metadata/media GET of every object; distinct = distinct canonical (program, observation) text; "+
 		"non-trivial = at least one condition parameter supplied; followed by random histories (tag history) with conditions on one request in three", true)
